@@ -248,4 +248,69 @@ theorem C11_scan_length_canonical (a b m : Str) (ha : Digits a) (hb : Digits b)
   simp only [hc, Bool.not_true, Bool.false_eq_true, if_false, paren_content a b m ha hb hp,
     value_min a b m ha, value_max a b m ha hb, message_of a b m ha hb hq hbs, Option.bind]
 
+/-! ### the same for `range`: the scanner keeps the *text* of each bound -/
+
+def rangeTokensOf (a b m : Str) : Str := 'r' :: 'a' :: 'n' :: 'g' :: 'e' :: ' ' :: '(' :: (content a b m ++ [')'])
+
+theorem paren_content_range (a b m : Str) (ha : Digits a) (hb : Digits b) (hp : ')' ∉ m) :
+    parenContent kwRange (rangeTokensOf a b m) = some (content a b m) := by
+  unfold parenContent rangeTokensOf
+  have hf : findSub kwRange ('r' :: 'a' :: 'n' :: 'g' :: 'e' :: ' ' :: '(' :: (content a b m ++ [')'])) = some 0 := by
+    simp [findSub, startsWith, kwRange]
+  rw [hf]
+  simp only [List.drop_zero]
+  have h1 : findCh '(' ('r' :: 'a' :: 'n' :: 'g' :: 'e' :: ' ' :: '(' :: (content a b m ++ [')'])) = some 6 := by simp [findCh]
+  rw [h1]
+  simp only [List.drop_succ_cons, List.drop_zero]
+  have hnc : ')' ∉ content a b m := by
+    have hna := digit_ne ha ')' (by decide)
+    have hnb := digit_ne hb ')' (by decide)
+    simp [content, rest2, rest3, hna, hnb, hp]
+  have h2 : findCh ')' ('(' :: (content a b m ++ [')'])) = some ((content a b m).length + 1) := by
+    simp only [findCh, show ('(' : Char) ≠ ')' by decide, if_false]
+    rw [findCh_skipList ')' _ _ hnc]
+    simp [findCh]
+  rw [h2]
+  simp [List.take_append, List.take_of_length_le]
+
+/-- **C11, scanning stage, `range`**: for every pair of numerals and every message free of `"`, `\` and `)`, the
+    scanner reads exactly the declared bound texts and the declared message from the text `proc_macro2` prints for
+    `#[validate(range(min = A, max = B, message = "M"))]` -/
+theorem C11_scan_range_canonical (a b m : Str) (ha : Digits a) (hb : Digits b)
+    (hq : '"' ∉ m) (hbs : '\\' ∉ m) (hp : ')' ∉ m) :
+    parseRange (rangeTokensOf a b m) = some { min := some a, max := some b, message := some m } := by
+  unfold parseRange
+  have hc : containsSub kwRange (rangeTokensOf a b m) = true := by
+    unfold containsSub rangeTokensOf
+    simp [findSub, startsWith, kwRange]
+  simp only [hc, Bool.not_true, Bool.false_eq_true, if_false, paren_content_range a b m ha hb hp,
+    value_min a b m ha, value_max a b m ha hb, message_of a b m ha hb hq hbs]
+
+/-! ### from the attribute text to the schema text -/
+
+/-- **C11 end to end on the canonical fragment (`length`, string field)**: from the token text of
+    `#[validate(length(min = A, max = B, message = "M"))]` on a `String` field, scanner and schema builder together emit
+    `z.string().min(A, { message: "M" }).max(B, { message: "M" })` — the bounds as numbers, the message escaped —
+    provided the message does not itself spell another validator's keyword (K11d) -/
+theorem C11_length_end_to_end (mp : V.Mappings) (a b m : Str) (ha : Digits a) (hb : Digits b)
+    (hq : '"' ∉ m) (hbs : '\\' ∉ m) (hp : ')' ∉ m)
+    (hr : containsSub kwRange (tokensOf a b m) = false) (he : containsSub kwEmail (tokensOf a b m) = false)
+    (hu : containsSub kwUrl (tokensOf a b m) = false) :
+    V.buildSchema mp (.prim cl!"string") ((parseValidator [some (tokensOf a b m)]).map toValidator) =
+      V.applyBound cl!"z.string()" ⟨(parseU64 a).map natToStr, (parseU64 b).map natToStr, some m⟩ := by
+  have hrange : parseRange (tokensOf a b m) = none := by simp [parseRange, hr]
+  simp [parseValidator, C11_scan_length_canonical a b m ha hb hq hbs hp, hrange, he, hu, toValidator,
+    V.buildSchema, V.renderType, V.renderPrimitive, V.applyStringValidators, V.applyLength]
+
+/-- … and for `range` on a numeric field: `z.coerce.number().min(A, …).max(B, …)` -/
+theorem C11_range_end_to_end (mp : V.Mappings) (a b m : Str) (ha : Digits a) (hb : Digits b)
+    (hq : '"' ∉ m) (hbs : '\\' ∉ m) (hp : ')' ∉ m)
+    (hl : containsSub kwLength (rangeTokensOf a b m) = false) (he : containsSub kwEmail (rangeTokensOf a b m) = false)
+    (hu : containsSub kwUrl (rangeTokensOf a b m) = false) :
+    V.buildSchema mp (.prim cl!"number") ((parseValidator [some (rangeTokensOf a b m)]).map toValidator) =
+      V.applyBound cl!"z.coerce.number()" ⟨canonDec a, canonDec b, some m⟩ := by
+  have hlen : parseLength (rangeTokensOf a b m) = none := by simp [parseLength, hl]
+  simp [parseValidator, C11_scan_range_canonical a b m ha hb hq hbs hp, hlen, he, hu, toValidator,
+    V.buildSchema, V.renderType, V.renderPrimitive, V.applyRange]
+
 end SL
